@@ -10,7 +10,8 @@ from ..tv.sem import TRUE, FALSE
 LEVEL = 'translation_validation'
 SIGS = {'fired': [('int',), ('int', 'bool'), ('int', 'bool', 'QString'), ()], 'pinged': [()],
         'moved': [('double', 'uint'), ('double',), ()], 'linked': [('ptr:VNode',), ()],
-        'ivalChanged': [('int',), ()], 'flagChanged': [('bool',), ()], 'svalChanged': [()], 'modeChanged': [()]}
+        'ivalChanged': [('int',), ()], 'flagChanged': [('bool',), ()], 'svalChanged': [()], 'modeChanged': [()],
+        'uRLChanged': [()], 'x': [()], 'aB2c': [('int',), ()]}
 
 
 def callback_programs(tier, rng):
@@ -20,6 +21,9 @@ def callback_programs(tier, rng):
         progs.append(D.Program('callback', None, ss, params=[('n', 'int')], signal='fired', tag='cb-tail-shape'))
     for ss in G.tails_after_skeletons(3 if tier == 'thorough' else 2):
         progs.append(D.Program('callback', None, ss, params=[], signal='pinged', tag='cb-tail-after-skeleton'))
+    sample = 1      # the whole family (2349 programs, ~30 s) in both tiers
+    for ss in G.rich_switch_tails(sample, C.seed() % sample):
+        progs.append(D.Program('callback', None, ss, params=[], signal='pinged', tag='cb-rich-switch-tail'))
     # every signal x every admissible parameter prefix, body using each parameter once
     for sig, pref in SIGS.items():
         for ptys in pref:
@@ -98,6 +102,7 @@ REJECTIONS = [
     ('onPoke: a.reset()', 'not a signal'),
     ('onReset: a.reset()', 'not a signal'),
     ('onNoSuchSignal: a.reset()', None),
+    ('onfired: a.reset()', None), ('onURLchanged: a.reset()', None), ('onUrlChanged: a.reset()', None), ('OnFired: a.reset()', None), ('on: a.reset()', None),
     ('onFired: function(n: int, f: bool, s: QString, extra: int) { a.reset() }', None),
     ('onFired: function(n: bool) { a.reset() }', None),
     ('onFired: function(n: int, f: int) { a.reset() }', None),
